@@ -303,7 +303,13 @@ pub fn spinner_ticks(_args: &[String]) -> String {
                 pb.set_style(ProgressStyle::with_template("{spinner}|").unwrap().tick_strings(first));
                 for _ in 0..k { pb.tick(); }
                 let s2 = ProgressStyle::with_template("{spinner}|").unwrap().tick_strings(second);
-                let want_running = format!("{}|", s2.get_tick_str(k + 1));
+                // the running frames are all strings but the last one, shown in turn; the last one is the final string
+                let frames = &second[..second.len() - 1];
+                let want_running = format!("{}|", frames[((k + 1) % frames.len() as u64) as usize]);
+                if s2.get_tick_str(k + 1) != frames[((k + 1) % frames.len() as u64) as usize] || s2.get_final_tick_str() != second[second.len() - 1] {
+                    return format!("{{\"found\": true, \"clause\": \"C11 get_tick_str / get_final_tick_str: running frames are all tick strings but the last, the last is the final one\", \"input\": {{\"tick_set\": {}, \"tick\": {}, \"get_tick_str\": {}, \"get_final_tick_str\": {}}}, \"rerun\": \"replay spinner_ticks\"}}",
+                        j, k + 1, crate::js(s2.get_tick_str(k + 1)), crate::js(s2.get_final_tick_str()));
+                }
                 pb.set_style(s2.clone());
                 pb.tick();
                 tried += 1;
@@ -314,7 +320,7 @@ pub fn spinner_ticks(_args: &[String]) -> String {
                 }
                 pb.finish();
                 tried += 1;
-                let want_final = format!("{}|", s2.get_final_tick_str());
+                let want_final = format!("{}|", second[second.len() - 1]);
                 let got = term.contents();
                 if got != want_final {
                     return format!("{{\"found\": true, \"clause\": \"C11 spinner shows the final tick string once finished\", \"input\": {{\"history\": \"{} ticks with tick set #{}, set_style(tick set #{}), tick, finish\", \"expected\": {}, \"screen\": {}}}, \"rerun\": \"replay spinner_ticks\"}}",
@@ -632,6 +638,21 @@ pub fn time_laws(_args: &[String]) -> String {
             return format!("{{\"found\": true, \"clause\": \"C09 the rate depends on the progress seen, not on the elapsed time the bar was created with\", \"input\": {{\"history\": \"twin bars, one with_elapsed(1 h); 6 x (sleep 5 ms; inc(100)) on both\", \"rate_with_elapsed\": {}, \"rate_plain\": {}}}, \"rerun\": \"replay time_laws\"}}", ra, rb);
         }
     }
+    // a bar abandoned part-way reports the average over the steps it did, not over its length
+    {
+        let pb = ProgressBar::hidden();
+        pb.set_length(1_000_000);
+        let t0 = std::time::Instant::now();
+        for _ in 0..5 { std::thread::sleep(Duration::from_millis(4)); pb.inc(200); }
+        pb.abandon();
+        let r = pb.per_sec();
+        let upper = 1000.0 / 0.020;                       // 1000 steps in at least 20 ms
+        let lower = 1000.0 / (t0.elapsed().as_secs_f64() + 0.001) / 2.0;
+        tried += 1;
+        if !(r.is_finite() && r <= upper * 1.01 && r >= lower) {
+            return format!("{{\"found\": true, \"clause\": \"C09 the rate of a finished bar is its average over the steps done\", \"input\": {{\"history\": \"length 1000000; 5 x (sleep 4 ms; inc(200)); abandon\", \"reported\": {}, \"at_most\": {}}}, \"rerun\": \"replay time_laws\"}}", r, upper);
+        }
+    }
     // an ETA too long for a Duration saturates; it does not become zero
     {
         let pb = ProgressBar::hidden();
@@ -686,6 +707,40 @@ pub fn multi_suspend(_args: &[String]) -> String {
                         crate::jlist(&h), crate::js(&want), crate::js(&got));
                 }
             }
+        }
+    }
+    format!("{{\"found\": false, \"tried\": {}}}", tried)
+}
+
+
+/// C05: a redraw request that arrives at least one refresh interval after the last painted frame is painted, whatever the
+/// request is: a repeated `set_position(same value)`, `inc(0)`, `set_length(same)`, `tick()`; the frame shows the texts
+/// whose own draws were dropped while the limiter was closed.
+pub fn stale_redraw(_args: &[String]) -> String {
+    use indicatif::{InMemoryTerm, ProgressBar, ProgressDrawTarget};
+    use std::time::Duration;
+    std::panic::set_hook(Box::new(|_| {}));
+    let mut tried = 0u64;
+    for req in 0..5 {
+        let term = InMemoryTerm::new(4, 60);
+        let pb = ProgressBar::with_draw_target(Some(100), ProgressDrawTarget::term_like_with_hz(Box::new(term.clone()), 20));
+        pb.set_style(ProgressStyle::with_template("{pos}/{len} {msg}").unwrap());
+        pb.set_position(7);
+        for i in 0..60 { pb.set_message(format!("spam {}", i)); }        // uses up the burst
+        pb.set_message("latest");                                          // dropped (or painted: both fine)
+        std::thread::sleep(Duration::from_millis(120));                    // more than two intervals at 20 Hz
+        let what = match req {
+            0 => { pb.set_position(7); "set_position(7) (unchanged)" }
+            1 => { pb.inc(0); "inc(0)" }
+            2 => { pb.set_length(100); "set_length(100) (unchanged)" }
+            3 => { pb.tick(); "tick()" }
+            _ => { pb.set_prefix(""); "set_prefix(\"\")" }
+        };
+        tried += 1;
+        let got = term.contents();
+        if got != "7/100 latest" {
+            return format!("{{\"found\": true, \"clause\": \"C05 a redraw request arriving at least one refresh interval after the last painted frame is always painted and shows the latest texts\", \"input\": {{\"history\": [\"20 Hz target, position 7\", \"60 x set_message(spam i)\", \"set_message(latest)\", \"sleep 120 ms\", {}], \"expected_screen\": \"7/100 latest\", \"screen\": {}}}, \"rerun\": \"replay stale_redraw\"}}",
+                crate::js(what), crate::js(&got));
         }
     }
     format!("{{\"found\": false, \"tried\": {}}}", tried)
